@@ -621,7 +621,13 @@ def run(ctx, replay=None):
                                 impl_mean_0_0=info["mean0"], impl_var_0=info["var0"], impl_nlml=info["nlml"]))
         nsamp = 0
         for cspec in cspecs:
-            info = gplin_composite.run_case(ctx, cspec)
+            try:
+                info = gplin_composite.run_case(ctx, cspec)
+            except (AssertionError, ValueError, IndexError, TypeError, np.linalg.LinAlgError) as e:
+                info = None     # the real code (or the comparison of its output shapes) failed on a valid input
+                ctx.violation("property", "[%s kernel] exception on a valid input: %r" % (cspec["sub"], e),
+                              case=dict(kind="gpc", spec=cspec),
+                              signature=dict(component="gp_posterior", kernel=cspec["sub"], quantity="exception"))
             if info is not None and info["sub"] == "warp" and info["warping_blocks"] >= 2 and nsamp < 1:
                 nsamp += 1
                 ctx.samples.insert(0, info)
